@@ -36,6 +36,7 @@
 #define ENTRIES_PER_SUMMARY_MIN         (SAMPLE_DECIMATE_FACTOR_MIN)
 #define SUMMARY_DECIMATE_FACTOR_MIN     (SAMPLE_DECIMATE_FACTOR_MIN)
 #define SIGNAL_DEF_PARAMETER_MAX        (1U << 24)  // keeps alignment and buffer size arithmetic within 32 bits
+#define TS_DECIMATE_FACTOR_MIN          (SAMPLE_DECIMATE_FACTOR_MIN)  // 15 index levels must hold any realistic entry count
 #define F64_BUF_LENGTH_MIN (1 << 16)
 #define SIGNAL_MASK  (0x0fff)
 #define TAU_F (6.283185307179586f)
@@ -167,7 +168,9 @@ int32_t jls_core_signal_def_validate(struct jls_signal_def_s const * def) {
     if ((def->samples_per_data > SIGNAL_DEF_PARAMETER_MAX)
             || (def->sample_decimate_factor > SIGNAL_DEF_PARAMETER_MAX)
             || (def->entries_per_summary > SIGNAL_DEF_PARAMETER_MAX)
-            || (def->summary_decimate_factor > SIGNAL_DEF_PARAMETER_MAX)) {
+            || (def->summary_decimate_factor > SIGNAL_DEF_PARAMETER_MAX)
+            || (def->annotation_decimate_factor > SIGNAL_DEF_PARAMETER_MAX)
+            || (def->utc_decimate_factor > SIGNAL_DEF_PARAMETER_MAX)) {
         JLS_LOGW("signal %d definition parameter too big", (int) def->signal_id);
         return JLS_ERROR_PARAMETER_INVALID;
     }
@@ -254,6 +257,8 @@ int32_t jls_core_signal_def_align(struct jls_signal_def_s * def) {
                 def->entries_per_summary, entries_per_summary);
     }
 
+    def->annotation_decimate_factor = u32_max(def->annotation_decimate_factor, TS_DECIMATE_FACTOR_MIN);
+    def->utc_decimate_factor = u32_max(def->utc_decimate_factor, TS_DECIMATE_FACTOR_MIN);
     def->sample_decimate_factor = sample_decimate_factor;
     def->samples_per_data = samples_per_data;
     def->entries_per_summary = entries_per_summary;
